@@ -239,44 +239,51 @@ func (in *inst) runProbe(p probe) (string, string) {
 		s.Unsubscribe(key + "/" + in.pfx + p.F) // restores the state: the probe leaves nothing behind
 		s.Drain()
 	}()
-	s.Send(session.EncSubscribe(7, topic))
-	if !s.Await(func(q session.Packet) bool { return q.Type == session.SUBACK && q.MsgID == 7 }) {
-		return "no-suback", "subscribe not acknowledged: " + topic
-	}
-	// everything before the SUBACK is the replay
-	var before []string
-	seenAck := false
-	for _, q := range s.Drain() {
-		if q.Type == session.SUBACK {
-			if len(q.Codes) != 1 || q.Codes[0] == 0x80 {
-				return "valid-subscribe-refused", fmt.Sprintf("subscribe %s refused", strings.Replace(topic, key, "KEY", 1))
+	// the subscription is requested twice in a row: the second SUBSCRIBE of a filter the connection
+	// already holds is accepted as well, so it is owed the same replay
+	for attempt, msgID := range []uint16{7, 8} {
+		s.Send(session.EncSubscribe(msgID, topic))
+		if !s.Await(func(q session.Packet) bool { return q.Type == session.SUBACK && q.MsgID == msgID }) {
+			return "no-suback", "subscribe not acknowledged: " + topic
+		}
+		// everything before the SUBACK is the replay
+		var before []string
+		seenAck := false
+		for _, q := range s.Drain() {
+			if q.Type == session.SUBACK {
+				if len(q.Codes) != 1 || q.Codes[0] == 0x80 {
+					return "valid-subscribe-refused", fmt.Sprintf("subscribe %s refused", strings.Replace(topic, key, "KEY", 1))
+				}
+				seenAck = true
+				continue
 			}
-			seenAck = true
-			continue
+			if q.Type != session.PUBLISH {
+				return "unexpected-packet", fmt.Sprint(q)
+			}
+			if seenAck {
+				return "replay-after-suback", fmt.Sprintf("stored message %s=%s arrived after the SUBACK", q.Topic, q.Payload)
+			}
+			before = append(before, q.Topic+"="+string(q.Payload))
 		}
-		if q.Type != session.PUBLISH {
-			return "unexpected-packet", fmt.Sprint(q)
+		want := in.expected(p)
+		g, w := append([]string(nil), before...), append([]string(nil), want...)
+		sort.Strings(g)
+		sort.Strings(w)
+		if strings.Join(g, ",") != strings.Join(w, ",") {
+			kind := "wrong-replay"
+			switch {
+			case !p.Load && len(g) > 0:
+				kind = "replay-without-load-permission"
+			case len(g) < len(w):
+				kind = "missing-replay"
+			case len(g) > len(w):
+				kind = "extra-replay"
+			}
+			if attempt == 1 {
+				kind += ":resubscribe"
+			}
+			return fmt.Sprintf("%s:last=%s:window=%s:load=%v", kind, p.Last, p.Window, p.Load), fmt.Sprintf("subscribe #%d to %s (last=%q window=%q load=%v) replayed %v, expected %v (stored: %v)", attempt+1, p.F, p.Last, p.Window, p.Load, before, want, in.model)
 		}
-		if seenAck {
-			return "replay-after-suback", fmt.Sprintf("stored message %s=%s arrived after the SUBACK", q.Topic, q.Payload)
-		}
-		before = append(before, q.Topic+"="+string(q.Payload))
-	}
-	want := in.expected(p)
-	g, w := append([]string(nil), before...), append([]string(nil), want...)
-	sort.Strings(g)
-	sort.Strings(w)
-	if strings.Join(g, ",") != strings.Join(w, ",") {
-		kind := "wrong-replay"
-		switch {
-		case !p.Load && len(g) > 0:
-			kind = "replay-without-load-permission"
-		case len(g) < len(w):
-			kind = "missing-replay"
-		case len(g) > len(w):
-			kind = "extra-replay"
-		}
-		return fmt.Sprintf("%s:last=%s:window=%s:load=%v", kind, p.Last, p.Window, p.Load), fmt.Sprintf("subscribe to %s (last=%q window=%q load=%v) replayed %v, expected %v (stored: %v)", p.F, p.Last, p.Window, p.Load, before, want, in.model)
 	}
 	// a live message arrives (after the SUBACK) when the filter matches
 	in.seq++
